@@ -40,6 +40,14 @@ pub trait RefI {
 	/// `got`: the implementation's values of this step, used only to re-synchronise recursive references
 	/// after a step that was undefined within the allowance
 	fn next(&mut self, c: &Candle, got: &[f64]) -> (Vec<Ap>, Vec<Sig>);
+	/// what the *documentation* says for the last step, where it differs from what the code does
+	/// (DESIGN 5 #16): (finding signature suffix, slot, expectation)
+	fn doc_signals(&self) -> Vec<(&'static str, usize, Sig)> {
+		Vec::new()
+	}
+	fn doc_values(&self) -> Vec<(&'static str, usize, Ap)> {
+		Vec::new()
+	}
 }
 
 // ---------------------------------------------------------------------------------------------
@@ -1098,6 +1106,8 @@ impl RefI for Kaufman {
 }
 
 struct Keltner {
+	doc_s: Sig,
+	doc_v: Ap,
 	source: Source,
 	sigma: f64,
 	prev_close: f64,
@@ -1118,7 +1128,16 @@ impl RefI for Keltner {
 		// the implementation's actual order and polarity (doc: upper, source, lower; buy above the upper bound)
 		let under = self.cu.under(s, lower);
 		let above = self.ca.above(s, upper);
+		// doc: first value is the upper bound; above the upper bound => buy, under the lower bound => sell
+		self.doc_s = Sig::from_tri(above, under);
+		self.doc_v = upper;
 		(vec![s, upper, lower], vec![Sig::from_tri(under, above)])
+	}
+	fn doc_signals(&self) -> Vec<(&'static str, usize, Sig)> {
+		vec![("polarity-opposite-to-doc", 0, self.doc_s.clone())]
+	}
+	fn doc_values(&self) -> Vec<(&'static str, usize, Ap)> {
+		vec![("order-differs-from-doc(upper,source,lower)", 0, self.doc_v)]
 	}
 }
 
@@ -1261,7 +1280,7 @@ pub fn make_refi2(name: &str, cfg: &Value, first: &Candle) -> Option<Box<dyn Ref
 		"KeltnerChannel" => {
 			let s = src(first, cfg_src(cfg, "source"));
 			let (_, p) = cfg_ma(cfg, "ma");
-			Box::new(Keltner { source: cfg_src(cfg, "source"), sigma: cfg_f(cfg, "sigma"), prev_close: first.close as f64, ma: MaRef::from_cfg(cfg, "ma", s), atr: MaRef::new("sma", p, Ap::rounded(first.high as f64 - first.low as f64, 1.0)), ca: CrossRef::default(), cu: CrossRef::default() })
+			Box::new(Keltner { doc_s: Sig::Exempt, doc_v: Ap::undefined(), source: cfg_src(cfg, "source"), sigma: cfg_f(cfg, "sigma"), prev_close: first.close as f64, ma: MaRef::from_cfg(cfg, "ma", s), atr: MaRef::new("sma", p, Ap::rounded(first.high as f64 - first.low as f64, 1.0)), ca: CrossRef::default(), cu: CrossRef::default() })
 		}
 		"KlingerVolumeOscillator" => Box::new(Klinger { last_tp: first.tp() as f64, ma1: MaRef::from_cfg(cfg, "ma1", z), ma2: MaRef::from_cfg(cfg, "ma2", z), ma3: MaRef::from_cfg(cfg, "signal", z), c1: CrossRef::default(), c2: CrossRef::default() }),
 		"KnowSureThing" => {
@@ -1289,6 +1308,7 @@ pub fn make_refi2(name: &str, cfg: &Value, first: &Candle) -> Option<Box<dyn Ref
 // batch 3
 
 struct Mfi {
+	doc_v: Ap,
 	zone: f64,
 	tps: Vec<(f64, f64)>, // (tp, volume) history incl. the initial candle first
 	period: usize,
@@ -1306,15 +1326,20 @@ impl RefI for Mfi {
 		// flows of the last `period` candles, each against its predecessor (the initial candle is its own predecessor)
 		let mut pos = crate::ap::KSum::new();
 		let mut neg = crate::ap::KSum::new();
+		let (mut dpos, mut dneg) = (0.0f64, 0.0f64);
 		for i in (n.saturating_sub(self.period)).max(1)..n {
 			let (tp, v) = self.tps[i];
 			let ptp = self.tps[i - 1].0;
 			if tp > ptp {
 				pos.add(v);
+				dpos += tp * v;
 			} else if tp < ptp {
 				neg.add(v);
+				dneg += tp * v;
 			}
 		}
+		// doc (linked definition): money flow = typical price x volume
+		self.doc_v = if dneg > 0.0 && dpos > 0.0 { Ap::new(1.0 - 1.0 / (1.0 + dpos / dneg), 1e-9) } else { Ap::undefined() };
 		if self.tps.len() > 4 * self.period + 64 {
 			let cut = self.tps.len() - self.period - 2;
 			self.tps.drain(..cut);
@@ -1341,6 +1366,9 @@ impl RefI for Mfi {
 		let enters = Sig::from_tri(t(&xl, -1), t(&xu, 1));
 		let leaves = Sig::from_tri(t(&xl, 1), t(&xu, -1));
 		(vec![upper, value, lower], vec![enters, leaves])
+	}
+	fn doc_values(&self) -> Vec<(&'static str, usize, Ap)> {
+		vec![("money-flow-ignores-typical-price(uses-plain-volume)", 1, self.doc_v)]
 	}
 }
 
@@ -1415,6 +1443,7 @@ impl RefI for Sar {
 }
 
 struct PivotRev {
+	doc_s: Sig,
 	right: usize,
 	up: RevRef,
 	lo: RevRef,
@@ -1440,7 +1469,12 @@ impl RefI for PivotRev {
 			self.lprice = pl;
 		}
 		let se = swl || (c.low as f64) >= self.lprice;
+		// doc: low pivot => buy, high pivot => sell, otherwise nothing
+		self.doc_s = Sig::Full(swl as i8 - swh as i8);
 		(vec![], vec![Sig::Full(se as i8 - le as i8)])
+	}
+	fn doc_signals(&self) -> Vec<(&'static str, usize, Sig)> {
+		vec![("level-condition-instead-of-documented-pivot-events", 0, self.doc_s.clone())]
 	}
 }
 
@@ -1497,6 +1531,7 @@ impl RefI for Rsi {
 }
 
 struct Rvi {
+	doc_s: Sig,
 	zone: f64,
 	prev_close: f64,
 	swma1: MaRef,
@@ -1529,7 +1564,12 @@ impl RefI for Rvi {
 		};
 		// code polarity: +1 when crossing downwards above the zone, -1 when crossing upwards below it
 		let s2 = Sig::from_tri(dn.and(rvi.gtf(z)).and(sig.gtf(z)), up.and(rvi.ltf(-z)).and(sig.ltf(-z)));
+		// doc: below -zone and crossing upwards => buy; above +zone and crossing downwards => sell
+		self.doc_s = Sig::from_tri(up.and(rvi.ltf(-z)), dn.and(rvi.gtf(z)));
 		(vec![rvi, sig], vec![s1, s2])
+	}
+	fn doc_signals(&self) -> Vec<(&'static str, usize, Sig)> {
+		vec![("polarity-opposite-to-doc", 1, self.doc_s.clone())]
 	}
 }
 
@@ -1615,6 +1655,8 @@ impl RefI for Trix {
 }
 
 struct TrendStrength {
+	doc_s0: Sig,
+	doc_s1: Sig,
 	source: Source,
 	zone: f64,
 	offset: usize,
@@ -1662,7 +1704,14 @@ impl RefI for TrendStrength {
 		let upper_sig = up.and(Tri::from(past >= self.zone));
 		let lower_sig = lo.and(Tri::from(past <= -self.zone));
 		let s1 = Sig::from_tri(upper_sig, lower_sig);
+		// doc #1: crossing the upper zone downwards => negative, crossing the lower zone upwards => positive
+		self.doc_s0 = Sig::from_tri(above, under);
+		// doc #2: value below the lower zone and turning upwards => positive; above the upper zone and turning downwards => negative
+		self.doc_s1 = Sig::from_tri(lo.and(value.ltf(-self.zone)), up.and(value.gtf(self.zone)));
 		(vec![value], vec![s0, s1])
+	}
+	fn doc_signals(&self) -> Vec<(&'static str, usize, Sig)> {
+		vec![("polarity-opposite-to-doc", 0, self.doc_s0.clone()), ("reads-source-window-with-opposite-polarity-instead-of-documented-rule", 1, self.doc_s1.clone())]
 	}
 }
 
@@ -1689,6 +1738,8 @@ impl RefI for TrueStrength {
 }
 
 struct Woodies {
+	doc_s: Sig,
+	run: Option<i64>,
 	source: Source,
 	lag: i64,
 	turbo: Box<dyn RefM>,
@@ -1724,18 +1775,34 @@ impl RefI for Woodies {
 				Sig::Exempt
 			}
 		};
+		// doc: full signal when the trend CCI has stayed on one side of zero for exactly `s1_lag` bars
+		let (neg, _z, pos) = trend.signs();
+		self.run = match (self.run, neg, pos) {
+			(Some(n), false, true) if trend.lo() > 0.0 => Some(if n > 0 { n + 1 } else { 1 }),
+			(Some(n), true, false) if trend.hi() < 0.0 => Some(if n < 0 { n - 1 } else { -1 }),
+			(Some(_), false, false) => Some(0),
+			_ => None,
+		};
+		self.doc_s = match self.run {
+			Some(n) if n.abs() == self.lag => Sig::Full(n.signum() as i8),
+			Some(_) => Sig::Full(0),
+			None => Sig::Exempt,
+		};
 		(vec![turbo, trend], vec![s0])
+	}
+	fn doc_signals(&self) -> Vec<(&'static str, usize, Sig)> {
+		vec![("fires-only-at-the-crossing-so-never-for-s1_lag>1", 0, self.doc_s.clone())]
 	}
 }
 
 pub fn make_refi3(name: &str, cfg: &Value, first: &Candle) -> Option<Box<dyn RefI>> {
 	let z = Ap::exact(0.0);
 	Some(match name {
-		"MoneyFlowIndex" => Box::new(Mfi { zone: cfg_f(cfg, "zone"), tps: vec![(first.tp() as f64, first.volume as f64)], period: cfg_p(cfg, "period"), cu: CrossRef::default(), cl: CrossRef::default(), mag: 0.0, t: 0.0 }),
+		"MoneyFlowIndex" => Box::new(Mfi { doc_v: Ap::undefined(), zone: cfg_f(cfg, "zone"), tps: vec![(first.tp() as f64, first.volume as f64)], period: cfg_p(cfg, "period"), cu: CrossRef::default(), cl: CrossRef::default(), mag: 0.0, t: 0.0 }),
 		"ParabolicSAR" => Box::new(Sar { step: cfg_f(cfg, "af_step"), max: cfg_f(cfg, "af_max"), trend: 1, inc: 1, low: first.low as f64, high: first.high as f64, sar: ex(first.low), prev_hl: (first.high as f64, first.low as f64), prev_trend: 0, forked: false }),
 		"PivotReversalStrategy" => {
 			let (l, r) = (cfg_p(cfg, "left"), cfg_p(cfg, "right"));
-			Box::new(PivotRev { right: r, up: RevRef::new(l, r, ex(first.high)), lo: RevRef::new(l, r, ex(first.low)), past_h: Delay::new(r, ex(first.high)), past_l: Delay::new(r, ex(first.low)), hprice: 0.0, lprice: 0.0 })
+			Box::new(PivotRev { doc_s: Sig::Exempt, right: r, up: RevRef::new(l, r, ex(first.high)), lo: RevRef::new(l, r, ex(first.low)), past_h: Delay::new(r, ex(first.high)), past_l: Delay::new(r, ex(first.low)), hprice: 0.0, lprice: 0.0 })
 		}
 		"PriceChannelStrategy" => {
 			let p = cfg_p(cfg, "period");
@@ -1748,7 +1815,7 @@ pub fn make_refi3(name: &str, cfg: &Value, first: &Candle) -> Option<Box<dyn Ref
 		"RelativeVigorIndex" => {
 			let (p1, p2) = (cfg_p(cfg, "period1"), cfg_p(cfg, "period2"));
 			let hl = Ap::exact((first.high - first.low) as f64);
-			Box::new(Rvi { zone: cfg_f(cfg, "zone"), prev_close: first.close as f64, swma1: MaRef::new("swma", p2, z), sma1: MaRef::new("sma", p1, z), swma2: MaRef::new("swma", p2, hl), sma2: MaRef::new("sma", p1, hl), ma: MaRef::from_cfg(cfg, "signal", z), cross: CrossRef::default() })
+			Box::new(Rvi { doc_s: Sig::Exempt, zone: cfg_f(cfg, "zone"), prev_close: first.close as f64, swma1: MaRef::new("swma", p2, z), sma1: MaRef::new("sma", p1, z), swma2: MaRef::new("swma", p2, hl), sma2: MaRef::new("sma", p1, hl), ma: MaRef::from_cfg(cfg, "signal", z), cross: CrossRef::default() })
 		}
 		"SMIErgodicIndicator" => {
 			let s = src(first, cfg_src(cfg, "source"));
@@ -1766,7 +1833,7 @@ pub fn make_refi3(name: &str, cfg: &Value, first: &Candle) -> Option<Box<dyn Ref
 		"TrendStrengthIndex" => {
 			let s = first.source(cfg_src(cfg, "source")) as f64;
 			let zone = cfg_f(cfg, "zone");
-			Box::new(TrendStrength { source: cfg_src(cfg, "source"), zone, offset: cfg_p(cfg, "reverse_offset"), n: cfg_p(cfg, "period"), hist: Vec::new(), init: s, t: 0.0, mag: s.abs(), cu: CrossRef::new(Ap::exact(0.0 - zone)), ca: CrossRef::new(Ap::exact(0.0 + zone)), rev: RevRef::new(1, 2, z) })
+			Box::new(TrendStrength { doc_s0: Sig::Exempt, doc_s1: Sig::Exempt, source: cfg_src(cfg, "source"), zone, offset: cfg_p(cfg, "reverse_offset"), n: cfg_p(cfg, "period"), hist: Vec::new(), init: s, t: 0.0, mag: s.abs(), cu: CrossRef::new(Ap::exact(0.0 - zone)), ca: CrossRef::new(Ap::exact(0.0 + zone)), rev: RevRef::new(1, 2, z) })
 		}
 		"TrueStrengthIndex" => {
 			let s = src(first, cfg_src(cfg, "source"));
@@ -1774,7 +1841,7 @@ pub fn make_refi3(name: &str, cfg: &Value, first: &Candle) -> Option<Box<dyn Ref
 		}
 		"WoodiesCCI" => {
 			let s = src(first, cfg_src(cfg, "source"));
-			Box::new(Woodies { source: cfg_src(cfg, "source"), lag: cfg_p(cfg, "s1_lag") as i64, turbo: make_ref("CCI", &Par::L(cfg_p(cfg, "period1") as P), &In::V(s.v as V))?, trend: make_ref("CCI", &Par::L(cfg_p(cfg, "period2") as P), &In::V(s.v as V))?, cross: CrossRef::default(), count: Some(0) })
+			Box::new(Woodies { doc_s: Sig::Exempt, run: Some(0), source: cfg_src(cfg, "source"), lag: cfg_p(cfg, "s1_lag") as i64, turbo: make_ref("CCI", &Par::L(cfg_p(cfg, "period1") as P), &In::V(s.v as V))?, trend: make_ref("CCI", &Par::L(cfg_p(cfg, "period2") as P), &In::V(s.v as V))?, cross: CrossRef::default(), count: Some(0) })
 		}
 		_ => return None,
 	})
